@@ -180,7 +180,7 @@ def playback(pid, failure, scratch, repo):
         if failure.get('harness') in g['harnesses']:
             cdir = runkani.build(g['crate'], g['appends'], repo, scratch)
             r = runkani.run(cdir, [failure['harness']], jobs=1, timeout=1800,
-                            extra=['--concrete-playback', 'print'])
+                            extra=['-Z', 'concrete-playback', '--concrete-playback', 'print'])
             m = re.search(r'Concrete playback unit test.*?```(.*?)```', r['tail'] + ''.join(
                 h['log'] for h in r['harnesses'].values()), re.S)
             if m:
